@@ -322,3 +322,48 @@ def decode_spec(d, payload, bf, key, mode):
 
 def frame(key, payload):
     return gen.ubx_frame(key[0], key[1], payload)
+
+
+import re as _re
+
+
+def leaf_types(d, acc=None):
+    """{attribute base name: (type string, scale or None)} for all leaves incl. raw bitfield names and flags"""
+    acc = {} if acc is None else acc
+    for k, v in d.items():
+        if isinstance(v, tuple):
+            if v[0] in BITF:
+                acc[k] = (v[0], None)
+                for fk, ft in v[1].items():
+                    acc.setdefault(fk, ("FLAG" + ft[1:4], None))
+            else:
+                leaf_types(v[1], acc)
+        elif isinstance(v, list):
+            acc[k] = (v[0], v[1])
+        else:
+            acc[k] = (v, None)
+    return acc
+
+
+def base_name(attr):
+    return _re.sub(r"(_\d\d+)+$", "", attr)
+
+
+def def_for(key, mode, name=None):
+    """the payload definition dict a (key, mode[, name]) refers to in the implementation's tables"""
+    if name is not None and name in TABLES[mode]:
+        return TABLES[mode][name]
+    nm = UBX_MSGIDS.get(key)
+    return TABLES[mode].get(nm)
+
+
+def wrong_length_C(d, kw):
+    """does kw supply a C-type attribute with a value whose byte length differs from the field size?"""
+    lt = leaf_types(d)
+    for k, v in kw.items():
+        t = lt.get(base_name(k))
+        if t and t[0] != "CH" and t[0][0] == "C" and isinstance(v, (bytes, str)):
+            n = len(v.encode("utf-8", "backslashreplace")) if isinstance(v, str) else len(v)
+            if n != int(t[0][1:4]):
+                return True
+    return False
